@@ -66,6 +66,16 @@ Module Ex.
     end.
   Proof. vm_compute. reflexivity. Qed.
 
+  (* PeekToken then NextToken deliver the same token; the queue is used *)
+  Example peek_then_next_example :
+    match peek_token 10 (init (src "ab cd")) with
+    | OK (t, st1) =>
+        tok_view t = (T_IDENT, s2r "ab", 1, 1)%N /\ peeks st1 = [t] /\
+        match next_token 10 st1 with OK (t2, st2) => t2 = t /\ peeks st2 = [] | _ => False end
+    | _ => False
+    end.
+  Proof. vm_compute. repeat split. Qed.
+
   (* designates, by hand, for the STRING token on the second line of: a, LF, two blanks, quote, bc *)
   Example designates_string_line2 :
     designates (dec_all (src "a") ++ [10%N] ++ dec_all (src "  ""bc"))%list
